@@ -7,18 +7,18 @@ open Rx Rx.Gen.SkipLast
 def absSkipLast (g : SkipLastObserver) : St1 := .skipLast g.count_down g.queue
 
 theorem tie_SkipLast_next (g : SkipLastObserver) (v : Val) :
-    (SkipLastObserver.next g v).map (fun r => (absSkipLast r.1, r.2)) = some (St1.onNext (absSkipLast g) v) := by
+    (SkipLastObserver.next g v).map (fun r => (absSkipLast r.1, r.2)) = some (Rs.lift (St1.onNext (absSkipLast g) v)) := by
   rcases g with ⟨o, cd, q⟩
   cases q with
   | nil => cases cd <;> rs_simp [SkipLastObserver.next, absSkipLast, St1.onNext]
   | cons h t => cases cd <;> rs_simp [SkipLastObserver.next, absSkipLast, St1.onNext]
 
 theorem tie_SkipLast_error (g : SkipLastObserver) (e : Err) :
-    (SkipLastObserver.error g e).map (fun r => r.2) = some (St1.onError' (absSkipLast g) e).2 := by
+    (SkipLastObserver.error g e).map (fun r => r.2) = some ((St1.onError' (absSkipLast g) e).2.map Rs.Ev.n) := by
   rcases g with ⟨⟩ <;> rs_tie [SkipLastObserver.error, absSkipLast, St1.onError']
 
 theorem tie_SkipLast_complete (g : SkipLastObserver) :
-    (SkipLastObserver.complete g).map (fun r => r.2) = some (St1.onComplete' (absSkipLast g)).2 := by
+    (SkipLastObserver.complete g).map (fun r => r.2) = some ((St1.onComplete' (absSkipLast g)).2.map Rs.Ev.n) := by
   rcases g with ⟨⟩ <;> rs_tie [SkipLastObserver.complete, absSkipLast, St1.onComplete']
 
 
